@@ -1,6 +1,7 @@
 import Karp.Driver.ScenarioJson
 import Karp.Spec.NeedCapacity
 import Karp.Model.Provision
+import Karp.Model.PodAcct
 
 namespace Karp.Driver.C04
 open Lean Karp.Driver Karp.Driver.ScenarioJson Karp.Scn Karp.Req Karp.Spec.NeedCapacity
@@ -373,6 +374,128 @@ def opSynced (inp impl : Json) : Except String Resp := do
     pure { model := some model, spec := some false, why := w, extra := some (jObj [("signature", jStr "gate")]) }
   | none => pure { model := some model, spec := some true }
 
+
+/-! ### `c04.account`: which pods a node is charged for, over histories of API changes and informer deliveries -/
+
+namespace Acct
+open Karp.PodAcct Karp.Spec.Assigned
+
+/-- the universe of the harness (`harness/internal/c04/account.go`): pods, the daemonset-owned ones, nodes -/
+def pods : List String := ["a", "b", "c", "d"]
+def daemonPods : List String := ["d"]
+def nodes : List String := ["n0", "n1"]
+
+/-- the API change (or informer delivery) an op of the harness amounts to, given what the API holds -/
+def evOf (api : String → Option (PodRec String)) (op : String) : Except String (Option (Ev String String)) := do
+  let parts := op.splitOn ":"
+  let kind := parts.head!
+  let x := (parts.drop 1).headD ""
+  let y := (parts.drop 2).headD ""
+  match kind with
+  | "new" => pure (if (api x).isNone then some (.podSet x { node := none, terminal := false, terminating := false }) else none)
+  | "bind" =>
+    match api x with
+    | none => pure (some (.podSet x { node := some y, terminal := false, terminating := false }))
+    | some r => pure (if r.node.isNone && !r.terminal && !r.terminating then some (.podSet x { r with node := some y }) else none)
+  | "finish" | "fail" =>
+    match api x with
+    | some r => pure (if r.terminal then none else some (.podSet x { r with terminal := true }))
+    | none => pure none
+  | "term" =>
+    match api x with
+    | some r => pure (if r.terminating then none else some (.podSet x { r with terminating := true }))
+    | none => pure none
+  | "gone" => pure (if (api x).isSome then some (.podGone x) else none)
+  | "node" => pure (some (.nodeSet x))
+  | "nonode" => pure (some (.nodeGone x))
+  | "see-pod" => pure (some (.seePod x))
+  | "see-node" => pure (some (.seeNode x))
+  | _ => throw s!"bad op {op}"
+
+def chargedOn (acct : String → String → Bool) (n : String) : List String := pods.filter (fun p => acct n p)
+
+def nodeJson (s : St String String) (n : String) : Json :=
+  let ch := if s.tracked n then chargedOn s.acct n else []
+  jObj [("name", jStr n), ("tracked", jBool (s.tracked n)), ("requests", jArr (ch.map jStr)), ("ports", jArr (ch.map jStr)),
+        ("daemon", jArr ((ch.filter daemonPods.contains).map jStr)), ("pods", jNat ch.length)]
+
+end Acct
+
+open Karp.PodAcct Karp.Spec.Assigned in
+def opAccount (inp impl : Json) : Except String Resp := do
+  if (fldOpt impl "panic").isSome then return { allowed := some false, spec := some false, why := "cluster state panicked" }
+  if let some (.str e) := fldOpt impl "harness_error" then throw s!"harness error: {e}"
+  let ops ← listF asStr inp "ops"
+  let isteps ← arrD impl "steps"
+  if isteps.length != ops.length then throw "steps / ops length mismatch"
+  let mut st : St String String := St.init
+  let mut msteps : List Json := []
+  -- specification side: what the API holds (the model state's copy is the same function of the ops) and which pods have an
+  -- undelivered change, from the informer's own answer ("requeue")
+  let mut dirty : List String := []
+  let mut why : Option String := none
+  for (op, (ij, i)) in ops.zip isteps.zipIdx do
+    let ev ← Acct.evOf st.apiPod op
+    let before := st
+    match ev with
+    | none => pure ()
+    | some e => st := step st e
+    let requeue := match ev with
+      | some (.seePod k) => (match before.apiPod k with
+          | some r => !(updatePod before k r).2
+          | none => false)
+      | _ => false
+    msteps := msteps ++ [jObj [("requeue", jBool requeue), ("nodes", jArr (Acct.nodes.map (Acct.nodeJson st)))]]
+    -- the independent judgement of what the real cluster state holds after this event
+    let iReq ← boolD ij "requeue" false
+    match ev with
+    | some (.podSet k _) => dirty := if dirty.contains k then dirty else k :: dirty
+    | some (.podGone k) => dirty := if dirty.contains k then dirty else k :: dirty
+    | some (.seePod k) => if !iReq then dirty := dirty.filter (· != k)
+    | _ => pure ()
+    if why.isNone then
+      for nj in (← arrD ij "nodes") do
+        let n ← strF nj "name"
+        -- a node whose Node object cluster state does not hold (unknown, or only the NodeClaim half is left) can be
+        -- charged for nothing, delivered or not
+        let tracked ← boolF nj "tracked"
+        let want := if tracked then Acct.pods.filter (fun p => assigned st.apiPod n p && !dirty.contains p) else []
+        let judged := fun (l : List String) => if tracked then l.filter (fun p => !dirty.contains p) else l
+        let req := judged (← listF asStr nj "requests")
+        let ports := judged (← listF asStr nj "ports")
+        let daemon := judged (← listF asStr nj "daemon")
+        for (what, got, exp) in [("the requests", req, want), ("the host ports", ports, want), ("the daemonset requests", daemon, want.filter Acct.daemonPods.contains)] do
+          if why.isSome then continue
+          match got.find? (fun p => !exp.contains p) with
+          | some p =>
+            why := some (if tracked then s!"[phantom] after event {i} ({op}) node {n} is still charged for {what} of pod {p}, which is not assigned to it any more (finished, removed or bound elsewhere) although its last change has been delivered"
+                         else s!"[phantom] after event {i} ({op}) the state node of {n}, whose Node object is gone, is still charged for {what} of pod {p}")
+          | none =>
+            match exp.find? (fun p => !got.contains p) with
+            | some p => why := some s!"[forgotten] after event {i} ({op}) node {n} is not charged for {what} of pod {p}, which is bound to it, has not finished and whose last change has been delivered"
+            | none => pure ()
+  let model := jObj [("steps", jArr msteps)]
+  match why with
+  | some w => pure { model := some model, spec := some false, why := w, extra := some (jObj [("signature", jStr ("account-" ++ sigOf w "account"))]) }
+  | none => pure { model := some model, spec := some true }
+
+/-! ### `c04.churn`: a pass after the bound pods went through their lifecycle -/
+
+open Karp.Spec.Assigned in
+def opChurn (inp impl : Json) : Except String Resp := do
+  let s ← scenario (← fld inp "scenario")
+  if (fldOpt impl "panic").isSome then return { allowed := some false, spec := some false, why := "the real code panicked" }
+  if let some (.str e) := fldOpt impl "harness_error" then throw s!"harness error: {e}"
+  let changes ← listF (fun j => do
+      pure ({ kind := ← strF j "kind", pod := ← strD j "pod" "", node := ← strD j "node" "" } : Change)) inp "events"
+  -- outside this op's domain: lifecycle changes of pods that carry inter-pod constraints (whether a finished or
+  -- terminating pod still "targets" others is not what C04 is about)
+  let t := touched changes
+  if (s.allPods.filter (fun p => t.contains p.name)).any (fun p => !p.affinity.isEmpty || !p.spreads.isEmpty) then
+    return { allowed := some true, spec := some true }
+  let p ← passObs impl
+  pure (toResp (judgePass (scenarioAfter s changes) p) "churn")
+
 def handle : Handler := fun op inp impl =>
   match op with
   | "c04.history" => opHistory false inp impl
@@ -380,6 +503,8 @@ def handle : Handler := fun op inp impl =>
   | "c04.pass" => opPass inp impl
   | "c04.view" => opView inp impl
   | "c04.synced" => opSynced inp impl
+  | "c04.account" => opAccount inp impl
+  | "c04.churn" => opChurn inp impl
   | _ => .error s!"unknown op {op}"
 
 end Karp.Driver.C04
